@@ -20,7 +20,7 @@ print(' '.join(sorted(json.load(open('$d/meta.json'))['related_properties'],key=
   for p in $props; do
     # FAST=1: stop at the first check that catches the change
     if [ -n "${FAST:-}" ] && grep -q 'violations=[1-9]' /verif/out/seedmatrix/$id.txt; then break; fi
-    out=$(cd /verif && timeout 1500 bin/vcheck run -p $p -tier quick -repo $wt -tag $id 2>&1)
+    out=$(cd /verif && timeout 1500 bin/vcheck run -p $p -tier quick -repo $wt -tag $id ${STOPAFTER:+-stopafter $STOPAFTER} 2>&1)
     nv=$(echo "$out" | grep -c '^VIOLATION')
     nc=$(echo "$out" | grep -c '^NOT-CLAIMED')
     echo "$id $p violations=$nv notclaimed=$nc $(echo "$out" | grep '^RESULT' | cut -c1-150)" | tee -a /verif/out/seedmatrix/$id.txt
